@@ -21,12 +21,48 @@ HERE = os.path.dirname(os.path.abspath(__file__))
 _KNOWN = None
 
 
+_SIGS = None
+
+
 def known_fns():
-    global _KNOWN
+    """names of the functions of the pinned tree (with its fix: commits)"""
+    global _KNOWN, _SIGS
     if _KNOWN is None:
         p = os.path.join(HERE, "known_fns.json")
-        _KNOWN = set(json.load(open(p))) if os.path.exists(p) else None
+        if os.path.exists(p):
+            d = json.load(open(p))
+            _SIGS = d if isinstance(d, dict) else {n: None for n in d}
+            _KNOWN = set(_SIGS)
     return _KNOWN
+
+
+def known_sig(name):
+    known_fns()
+    return (_SIGS or {}).get(name)
+
+
+def resolve_renames(prog):
+    """a pinned-tree function that is missing while exactly one new function of the same module / impl has its signature is
+    taken to be that function under a new name: it is registered under the old name (so that rules anchored in it read
+    it) and is not inlined into its callers"""
+    known = known_fns()
+    if not known:
+        return {}
+    out = {}
+    new = [n for n in prog.fns if n not in known and "{closure" not in n]
+    for name in sorted(known):
+        if name in prog.fns or "{closure" in name:
+            continue
+        sig = known_sig(name)
+        parent = name.rsplit("::", 1)[0]
+        cands = [n for n in new if n.rsplit("::", 1)[0] == parent and sig is not None and prog.fns[n].get("sig") == sig and n not in out.values()]
+        if len(cands) == 1:
+            out[name] = cands[0]
+    for old_, new_ in out.items():
+        prog.fns[old_] = prog.fns[new_]
+        for c in [n for n in prog.fns if n.startswith(new_ + "::{closure")]:
+            prog.fns[old_ + c[len(new_):]] = prog.fns[c]
+    return out
 
 
 def _rename(node, suffix):
@@ -67,7 +103,7 @@ class Normaliser:
         self.inlined = {}       # fn name -> list of helper names inlined into it
 
     def inlinable(self, callee, stack):
-        if self.known is None or not callee or callee in self.known or callee in stack:
+        if self.known is None or not callee or callee in self.known or callee in stack or callee in getattr(self.prog, "renamed_to", ()):
             return False
         f = self.prog.fns.get(callee)
         if not f or "hir" not in f or "params" not in f:
